@@ -72,7 +72,7 @@ def check(run):
     engine(run, p)
     catsync(run, p)
     from .. import ief, triage
-    ief.run_ief(run, 'C03', [p.fn(RX + 'extract'), p.fn(RX + 'pdextract')], triage=triage.IEF)
+    ief.run_ief(run, 'C03', [p.fn(RX + 'extract'), p.fn(RX + 'pdextract'), p.method('Extractor', '__init__')], triage=triage.IEF, selfattr=True)
     run.floor('C03-IEF', run.units['ief_functions_checked'], 60)
     run.trust('the interpreter\'s re module defines which characters a class such as \\d or [^\\W_] matches')
 
